@@ -9,7 +9,7 @@ import gen
 import mockca
 import tacdrun
 import vlib
-from ext import auditd_c17, auditd_tacd
+from ext import auditd_c17, auditd_tacd, fdwatch
 
 FINISH = dict(
     level="proof",
@@ -33,7 +33,11 @@ FINISH = dict(
          "certificate); hostile clients that keep coming while the valid client is served (storm), a slow "
          "ClientHello, ClientHello then silence, a half-closed connection, completed validations kept open; valid "
          "validations in the MIDDLE of a history (each must be answered correctly). The final valid handshake "
-         "gets ONE try (15 s) unless the history leaves connections open or still coming (then up to 3).",
+         "gets ONE try (15 s) unless the history leaves connections open or still coming (then up to 3). "
+         "Descriptor exhaustion (a tacd started with RLIMIT_NOFILE = 24 meets 60 idle connections at once: accept() "
+         "fails with EMFILE until they go away) alone and around other behaviours on both listeners; whether the "
+         "descriptor table was seen full is counted (fd-exhaustion:<listener>:descriptor-table-full). If py/gen.py "
+         "does not recognise the accept loop, that is reported as a broken tie and the histories are played all the same.",
 )
 
 EXT = "1.3.6.1.5.5.7.1.31=critical,DER:04:20:" + ":".join("%02x" % ((7 * i + 3) % 256) for i in range(32))
@@ -47,6 +51,11 @@ def one(history, binary, listener="tcp"):
     held = []
     res = {"history": list(history), "listener": listener}
     mid = []
+    watch = None
+    if "fd-exhaustion" in history:
+        # counted only: did tacd's descriptor table fill up while more connections were waiting (accept() then
+        # fails with EMFILE)?  Sampled from /proc while the history is played.
+        watch = fdwatch.FdWatch(t.p.pid, tacdrun.NOFILE_FOR_EXHAUSTION)
     try:
         if not auditd_tacd.wait_own(t):
             res["started"] = False     # (rc and stderr are taken below: a second stop() would find the log closed)
@@ -64,6 +73,8 @@ def one(history, binary, listener="tcp"):
         res["final_error"] = final.get("error") or (mid and "valid handshake inside the history: %s" % mid[0]) or None
         res["cert_pem"] = final.get("cert_pem")
     finally:
+        if watch:
+            res["fd_table_full"] = watch.close()
         for s in held:
             try:
                 s.close()
@@ -76,7 +87,15 @@ def one(history, binary, listener="tcp"):
 
 
 def run(ctx):
-    prof = gen.gen_profile()
+    try:
+        prof = gen.gen_profile()
+    except gen.GenError as e:
+        # the accept loop is written in a way the scan does not know.  That is a broken tie, not a verdict:
+        # it is recorded (Ctx.finish reports it for C17), the Gen/Profile.lean in place is kept, and the
+        # connection histories are played all the same — a concrete failing history is worth more than
+        # "not recognised", and if there is none the run ends with no-failing-input-found
+        gen._fail("profile", str(e))
+        prof = getattr(e, "partial", None) or gen.kept_profile()
     gen.gen_consts()
     if ctx.replay:
         return replay(ctx)
@@ -119,6 +138,8 @@ def run(ctx):
         ctx.count("final-tries:%s" % ("up-to-3" if auditd_c17.may_wait(r["history"]) else "one"))
         for k in r["history"]:
             ctx.count("behaviour:" + k)
+        if "fd_table_full" in r:
+            ctx.count("fd-exhaustion:%s:descriptor-table-%s" % (r["listener"], "full" if r["fd_table_full"] else "never-seen-full"))
         robj = {k: r.get(k) for k in ("history", "listener", "started", "alive", "final_ok", "final_cert_ok", "final_error",
                                       "rc", "stderr_tail")}
         if not r.get("started"):
